@@ -47,7 +47,12 @@ func c11Check(p *projgen.Project, rec *ev.Recorder) []harness.Viol {
 	}
 	if (e30 == nil) != (e31 == nil) {
 		// the 3.1 path always validates through 3.0 first, so only "3.1 fails alone" can happen
-		return []harness.Viol{{Signature: "C11:one-version-fails-alone", Message: fmt.Sprintf("3.0.0: %s; 3.1.0: %s\n%s", fmtErr(e30), fmtErr(e31), p.Describe())}}
+		sig := "C11:one-version-fails-alone"
+		if e31 != nil && strings.Contains(e31.Error(), "infinite circular reference detected") {
+			// libopenapi refuses a schema that requires a reference back to itself; kin-openapi does not look
+			sig += ":3.1.0:required-self-reference"
+		}
+		return []harness.Viol{{Signature: sig, Message: fmt.Sprintf("3.0.0: %s; 3.1.0: %s\n%s", fmtErr(e30), fmtErr(e31), p.Describe())}}
 	}
 	d30, err := oas.Parse(res.Spec["3.0.0"])
 	if err != nil {
